@@ -4,6 +4,8 @@
 -/
 import PowHsm.Spec.C14
 import PowHsm.Proofs.Script
+import PowHsm.Proofs.TxCodec
+import PowHsm.Ledger.Protocol
 namespace PowHsm
 namespace Props.C14
 open Btc
@@ -16,55 +18,6 @@ theorem fields_preserved (t t' : Tx) (h : unsignTx t = some t') :
   cases hm : t.vin.mapM clearIn with
   | none => simp [hm] at h
   | some vin => simp [hm] at h; subst h; simp
-
-/-- position-wise relation between two lists of the same length -/
-def AllPairs {α β : Type} (R : α → β → Prop) : List α → List β → Prop
-  | [], [] => True
-  | a :: as, b :: bs => R a b ∧ AllPairs R as bs
-  | _, _ => False
-
-theorem AllPairs.imp {α β : Type} {R S : α → β → Prop} (hRS : ∀ a b, R a b → S a b) :
-    ∀ {xs : List α} {ys : List β}, AllPairs R xs ys → AllPairs S xs ys
-  | [], [], _ => trivial
-  | _ :: _, _ :: _, h => ⟨hRS _ _ h.1, AllPairs.imp hRS h.2⟩
-  | [], _ :: _, h => h.elim
-  | _ :: _, [], h => h.elim
-
-theorem AllPairs.length_eq {α β : Type} {R : α → β → Prop} :
-    ∀ {xs : List α} {ys : List β}, AllPairs R xs ys → xs.length = ys.length
-  | [], [], _ => rfl
-  | _ :: _, _ :: _, h => by simp [AllPairs.length_eq h.2]
-  | [], _ :: _, h => h.elim
-  | _ :: _, [], h => h.elim
-
-theorem AllPairs.right_mem {α β : Type} {R : α → β → Prop} :
-    ∀ {xs : List α} {ys : List β}, AllPairs R xs ys → ∀ y ∈ ys, ∃ x ∈ xs, R x y
-  | [], [], _, y, hy => by simp at hy
-  | a :: as, b :: bs, h, y, hy => by
-    rcases List.mem_cons.mp hy with rfl | hm
-    · exact ⟨a, List.mem_cons_self, h.1⟩
-    · obtain ⟨x, hx, hr⟩ := AllPairs.right_mem h.2 y hm
-      exact ⟨x, List.mem_cons_of_mem _ hx, hr⟩
-  | [], _ :: _, h, _, _ => h.elim
-  | _ :: _, [], h, _, _ => h.elim
-
-theorem mapM_forall2 {α β : Type} {f : α → Option β} : ∀ {xs : List α} {ys : List β},
-    xs.mapM f = some ys → AllPairs (fun x y => f x = some y) xs ys := by
-  intro xs
-  induction xs with
-  | nil => intro ys h; simp at h; subst h; exact trivial
-  | cons x xs ih =>
-    intro ys h
-    rw [List.mapM_cons] at h
-    cases hx : f x with
-    | none => simp [hx] at h
-    | some y =>
-      cases hxs : xs.mapM f with
-      | none => simp [hx, hxs] at h
-      | some ys' =>
-        simp [hx, hxs] at h
-        subst h
-        exact ⟨hx, ih hxs⟩
 
 /-- **per input**, in order: outpoint and sequence number byte for byte, and the script is the
     cleared form of the original one; the number of inputs does not change -/
@@ -101,12 +54,6 @@ theorem script_shape (s s' : Bytes) (h : clearScript s = some s') :
       rw [← h, elems_zeros, elems_encode l (elems_wf s ops he l (List.mem_of_getLast? hl))]
       rfl
 
-theorem canon_encode (l : Elem) : (canon l).encode = l.encode := by
-  cases l with
-  | zero => rfl
-  | op c => rfl
-  | push d => cases d <;> rfl
-
 /-- **applying the transformation again changes nothing** -/
 theorem clear_idempotent (s s' : Bytes) (h : clearScript s = some s') : clearScript s' = some s' := by
   obtain ⟨ops, l, _, hl, hs', he'⟩ := script_shape s s' h
@@ -142,31 +89,6 @@ theorem clear_refuses_iff (s : Bytes) :
       have : (o :: os).getLast? = some ((o :: os).getLast (by simp)) := List.getLast?_eq_some_getLast _
       simp [this]
 
-theorem mapM_none_iff {α β : Type} {f : α → Option β} : ∀ {xs : List α},
-    xs.mapM f = none ↔ ∃ x ∈ xs, f x = none := by
-  intro xs
-  induction xs with
-  | nil => simp
-  | cons x xs ih =>
-    rw [List.mapM_cons]
-    cases hx : f x with
-    | none => simp [hx]
-    | some y =>
-      cases hxs : xs.mapM f with
-      | none =>
-        have := ih.mp hxs
-        obtain ⟨z, hz, hfz⟩ := this
-        simp only [Option.bind_eq_bind, Option.bind_some, Option.bind_none, List.mem_cons, true_iff]
-        exact ⟨z, Or.inr hz, hfz⟩
-      | some ys =>
-        simp only [Option.bind_eq_bind, Option.bind_some, Option.pure_def, List.mem_cons]
-        constructor
-        · intro h; cases h
-        · rintro ⟨z, hz | hz, hfz⟩
-          · subst hz; rw [hx] at hfz; cases hfz
-          · have := ih.mpr ⟨z, hz, hfz⟩
-            rw [hxs] at this; cases this
-
 /-- **a transaction is refused exactly when some input script cannot be decoded or is empty** -/
 theorem unsign_refuses_iff (t : Tx) :
     unsignTx t = none ↔ ∃ i ∈ t.vin, elems i.script = none ∨ elems i.script = some [] := by
@@ -183,16 +105,6 @@ theorem unsign_refuses_iff (t : Tx) :
     rw [(clear_refuses_iff _).mpr h]
     rfl
 
-theorem mapM_self {α : Type} {f : α → Option α} : ∀ {xs : List α},
-    (∀ x ∈ xs, f x = some x) → xs.mapM f = some xs := by
-  intro xs
-  induction xs with
-  | nil => intro _; simp
-  | cons x xs ih =>
-    intro h
-    rw [List.mapM_cons, h x List.mem_cons_self, ih fun y hy => h y (List.mem_cons_of_mem _ hy)]
-    rfl
-
 /-- **idempotence at transaction level**: the relayed form is a fixed point -/
 theorem unsign_idempotent (t t' : Tx) (h : unsignTx t = some t') : unsignTx t' = some t' := by
   have hin := inputs_preserved t t' h
@@ -207,6 +119,59 @@ theorem unsign_idempotent (t t' : Tx) (h : unsignTx t = some t') : unsignTx t' =
   rw [this]
   rfl
 
+/-- the relayed form of a decodable transaction is itself well-formed for the codec -/
+theorem unsign_wf (t t' : Tx) (hw : t.WF0) (hne : t.vin ≠ []) (h : unsignTx t = some t') :
+    t'.WF ∧ (t'.wit = [] ∨ WitWF t') := by
+  obtain ⟨hv, ho, hl, hwit⟩ := fields_preserved t t' h
+  have hin := inputs_preserved t t' h
+  have hlen := AllPairs.length_eq hin
+  refine ⟨⟨by rw [hv]; exact hw.ver, by rw [hl]; exact hw.lock, ?_, by rw [ho]; exact hw.vout,
+    by rw [← hlen]; exact hw.nin, by rw [ho]; exact hw.nout, ?_⟩, ?_⟩
+  · intro i' hi'
+    obtain ⟨i, hi, h1, h2, h3, h4⟩ := AllPairs.right_mem hin i' hi'
+    have hwi := hw.vin i hi
+    exact ⟨by rw [h1]; exact hwi.h, by rw [h2]; exact hwi.n, by rw [h3]; exact hwi.q,
+      Nat.le_trans (clearScript_length_le _ _ h4) hwi.s⟩
+  · intro h0
+    have : t.vin.length = 0 := by rw [hlen, h0]; rfl
+    exact hne (List.eq_nil_of_length_eq_zero this)
+  · rcases hw.wit with h0 | hww
+    · left; rw [hwit]; exact h0
+    · right
+      exact ⟨by rw [hwit, ← hlen]; exact hww.len, by rw [hwit]; exact hww.stacks⟩
+
+/-- **idempotence on the wire**: what the manager relays for a decodable transaction (with at
+    least one input) is a fixed point of the transformation — relaying it again yields the very
+    same bytes -/
+theorem relayed_fixed_point (raw out : Bytes) (h : getUnsignedTx raw = some out)
+    (hne : ∀ t, deserialize raw = some t → t.vin ≠ []) : getUnsignedTx out = some out := by
+  unfold getUnsignedTx at h
+  cases hd : deserialize raw with
+  | none => simp [hd] at h
+  | some t =>
+    simp only [hd] at h
+    cases hu : unsignTx t with
+    | none => simp [hu] at h
+    | some t' =>
+      simp only [hu, Option.map_some, Option.some.injEq] at h
+      subst h
+      obtain ⟨hwf, hwit⟩ := unsign_wf t t' (deserialize_wf0 hd) (hne t hd) hu
+      have hfix := unsign_idempotent t t' hu
+      unfold getUnsignedTx
+      by_cases hnull : witIsNull t'.wit = true
+      · rw [deserialize_serialize_legacy t' hwf hnull]
+        simp only [unsignTx_wit, hfix, Option.map_some]
+        have h0 : witIsNull ([] : List (List Bytes)) = true := rfl
+        unfold serialize
+        simp only [hnull, h0, if_true]
+      · have hnn : witIsNull t'.wit = false := by simpa using hnull
+        have hww : WitWF t' := by
+          rcases hwit with h0 | hww
+          · rw [h0] at hnn; simp [witIsNull] at hnn
+          · exact hww
+        rw [deserialize_serialize_segwit t' hwf hww hnn]
+        simp only [hfix, Option.map_some]
+
 /-- non-vacuity: a 2-of-3 multisig script-sig (OP_0, two signatures, PUSHDATA1 redeem script)
     and the same with the signatures missing are cleared to the same bytes, a fixed point -/
 example :
@@ -215,6 +180,38 @@ example :
     let blank : Bytes := [0, 0, 0] ++ pushData redeem
     clearScript signed = some blank ∧ clearScript blank = some blank := by
   decide +kernel
+
+/-- **a transaction that cannot be decoded, or has an input with an empty script, is answered
+    "invalid message" (-102) without contacting the device**: the authorized-sign handler returns
+    that code with no event at all (no APDU, no disconnect, no re-open — even when a link repair
+    is pending) and leaves the world untouched -/
+theorem undecodable_tx_refused (c : Comm.Codes) (req : List (String × Json)) (path : List Nat) (w : World)
+    (m : List (String × Json)) (hm : Json.lookup req "message" = some (.obj m))
+    (hh : (Json.lookup m "hash").isSome = false)
+    (ha : ¬ Comm.validateAuth c req true < 0) (hv : ¬ Comm.validateMessage c req .tx < 0)
+    (hd : ((Ledger.strField? m "tx").bind Py.fromHex).bind Btc.getUnsignedTx = none) :
+    Ledger.signV5 c req path w = ⟨.ok (c.invalidMessage, []), [], w⟩ := by
+  unfold Ledger.signV5
+  simp only [hm, hh, Bool.false_eq_true, if_false, ha, hv, hd]
+  rfl
+
+/-- non-vacuity of `relayed_fixed_point`: a one-input transaction whose script-sig holds a
+    signature placeholder and a redeem script is relayed with the placeholder emptied -/
+example :
+    let raw : Bytes := [1, 0, 0, 0, 1] ++ List.replicate 32 7 ++ [0, 0, 0, 0] ++ [4, 1, 0x11, 1, 0xAA] ++
+      [0xff, 0xff, 0xff, 0xff] ++ [0] ++ [0, 0, 0, 0]
+    let out : Bytes := [1, 0, 0, 0, 1] ++ List.replicate 32 7 ++ [0, 0, 0, 0] ++ [3, 0, 1, 0xAA] ++
+      [0xff, 0xff, 0xff, 0xff] ++ [0] ++ [0, 0, 0, 0]
+    getUnsignedTx raw = some out ∧ (∀ t, deserialize raw = some t → t.vin ≠ []) := by
+  refine ⟨by decide +kernel, ?_⟩
+  intro t ht
+  have : deserialize ([1, 0, 0, 0, 1] ++ List.replicate 32 7 ++ [0, 0, 0, 0] ++ [4, 1, 0x11, 1, 0xAA] ++
+      [0xff, 0xff, 0xff, 0xff] ++ [0] ++ [0, 0, 0, 0]) = some
+      ⟨[1, 0, 0, 0], [⟨List.replicate 32 7, [0, 0, 0, 0], [1, 0x11, 1, 0xAA], [0xff, 0xff, 0xff, 0xff]⟩], [], [],
+        [0, 0, 0, 0]⟩ := by decide +kernel
+  rw [this] at ht
+  injection ht with ht; subst ht
+  simp
 
 end Props.C14
 end PowHsm
